@@ -112,7 +112,11 @@ class Shuffle(ArrayExpr):
 
         intermediates: dict = dict()
         merges: dict = dict()
-        dtype = np.min_scalar_type(max(*chunks[axis], self._chunk_size_limit))
+        # wide enough for offsets into the input chunks and for positions in
+        # the output chunks (a group that cannot be split may exceed the limit)
+        dtype = np.min_scalar_type(
+            max(*chunks[axis], self._chunk_size_limit, *map(len, new_chunks))
+        )
         split_name = f"shuffle-split-{self.deterministic_token}"
         slices = [slice(None)] * len(chunks)
         split_name_suffixes = count()
